@@ -30,3 +30,21 @@ Proof. exists (b "My Image"). vm_compute. split; [discriminate | reflexivity]. Q
 Example gate_nonvacuous : valid_resource_name (b "Im{1") = false /\ valid_resource_name (b "Fm0+x") = true
                           /\ predicted EImage (b "My Image") = 2 /\ predicted EForm (b "My Image") = 1.
 Proof. vm_compute. repeat split. Qed.
+
+(** the judgement of the pages channel says what it should: code 0 iff on every page every name
+    resolves to exactly the resource registered there *)
+Lemma pages_code_sound : forall c, pages_code c = 0 <->
+  forall pg n e f, In (pg, n, e, f) c -> f = Some e.
+Proof.
+  intro c. unfold pages_code, code_of. split.
+  - intro H. destruct (forallb res_ok c) eqn:E; [|discriminate].
+    rewrite forallb_forall in E. intros pg n e f Hin. specialize (E _ Hin). cbn in E.
+    destruct f as [f|]; [|discriminate]. apply bytes_eqb_eq in E. subst. reflexivity.
+  - intro H. assert (E : forallb res_ok c = true).
+    { apply forallb_forall. intros [[[pg n] e] f] Hin. rewrite (H _ _ _ _ Hin). cbn. apply bytes_eqb_eq. reflexivity. }
+    rewrite E. reflexivity.
+Qed.
+Example pages_code_nonvacuous :
+  pages_code [(0, [73], [1; 2], Some [1; 2]); (1, [73], [3; 4], Some [1; 2])] = 2
+  /\ pages_code [(0, [73], [1; 2], Some [1; 2]); (1, [73], [3; 4], Some [3; 4])] = 0.
+Proof. vm_compute. split; reflexivity. Qed.
